@@ -306,7 +306,14 @@ class Stream(StreamIterator[_RecvType], Generic[_RecvType, _SendType]):
             # This error should be logged by ``request_handler``, here we
             # have to convert it into trailers and send to the client using
             # ``send_trailing_metadata`` method.
-            if isinstance(exc_val, GRPCError):
+            if (
+                isinstance(exc_val, GRPCError)
+                # OK status can't be sent for a unary response without
+                # a message, such error is handled as any other exception
+                and not (exc_val.status is Status.OK
+                         and not self._cardinality.server_streaming
+                         and not self._send_message_done)
+            ):
                 status = exc_val.status
                 status_message = exc_val.message
                 status_details = exc_val.details
